@@ -49,6 +49,12 @@ class Prop(common.PropertyCheck):
         layouts = ['same', 'swapped', 'dropped', 'reversed', 'lacking']
         for i in range(self.budget(20, 150)):
             yield {'k': 'partial', 'seed': rng.randrange(1 << 30), 'layout': layouts[(i // len(orders) + i) % len(layouts)], 'order': orders[i % len(orders)]}
+        # integer arrays with many more events than levels, negative levels included (table-driven implementations)
+        for i in range(self.budget(24, 240)):
+            D = rng.randrange(2, 5)
+            yield {'k': 'mef', 'cont': 'array_int', 'D': D, 'nc': rng.randrange(1, D + 1), 'seed': rng.randrange(1 << 30), 'N': [70, 150, 400][i % 3],
+                   'levels': [(-6, 60), (-3, 12), (-40, 3), (0, 20)][i % 4], 'idt': ['int32', 'int64', 'int16', 'int8'][(i // 2) % 4],
+                   'req': ['none', 'subset', 'all_reordered', 'scalar'][(i // 3) % 4], 'negdata': True, 'dupnames': False, 'scform': ['pos', 'default'][i % 2], 'bad': None, 'neg': False}
 
     def build(self, case):
         import random
@@ -63,6 +69,12 @@ class Prop(common.PropertyCheck):
             spell_names = names
             if case.get('dupnames') and D >= 3:
                 spell_names = None                       # address every column by position in this case
+        elif case['cont'] == 'array_int':
+            # many events on few integer levels, some of them negative (signed containers)
+            lo, hi = case['levels']
+            d = np.array([[r.randrange(lo, hi) for _ in range(D)] for _ in range(case['N'])], dtype=case['idt']).reshape(-1, D)
+            names = None
+            spell_names = None
         else:
             d = np.array([[r.randrange(-300 if case.get('negdata') else 0, 1024) for _ in range(D)] for _ in range(r.choice([0, 1, 9]))], dtype=np.float64).reshape(-1, D)
             names = None
@@ -336,6 +348,32 @@ class Prop(common.PropertyCheck):
                             out['problems'].append('request %s: channel %s not converted with the curve of a calibration of %s alone' % (req, c, c))
             except Exception as e:
                 out['problems'].append('request %s raised %s' % (req, type(e).__name__))
+        # scalar requests, by position and by name, and the explicitly empty request
+        for idx, c in enumerate(sample.channels):
+            for req in (idx, c):
+                try:
+                    got = tf(sample, req)
+                except ValueError:
+                    if c in mef_channels:
+                        out['problems'].append('scalar request %r (calibrated channel %s) refused' % (req, c))
+                    continue
+                except Exception as e:
+                    out['problems'].append('scalar request %r raised %s' % (req, type(e).__name__))
+                    continue
+                if c not in mef_channels:
+                    out['problems'].append('scalar request %r: channel %s has no standard curve but the request was not refused' % (req, c))
+                    continue
+                for c2 in sample.channels:
+                    x = np.asarray(sample[:, c2], dtype=float)
+                    exp = np.asarray(own[c](x)) if c2 == c else x
+                    if not np.array_equal(np.asarray(got[:, c2], dtype=float), exp):
+                        out['problems'].append('scalar request %r: channel %s %s' % (req, c2, 'not converted with its own curve' if c2 == c else 'changed'))
+        try:
+            got = tf(sample, [])
+            if not np.array_equal(np.asarray(got), np.asarray(sample)):
+                out['problems'].append('empty request converted something')
+        except Exception as e:
+            out['problems'].append('empty request raised %s' % type(e).__name__)
         unc = [c for c in sample.channels if c not in mef_channels and c.startswith('FL')]
         for c in unc:
             try:
